@@ -1,5 +1,5 @@
 #!/usr/bin/env python3
-"""ad-hoc run of one harness test: adhoc.py <pkg> <test regex> [race] [tier] — prints the child log"""
+"""ad-hoc run of one harness test: adhoc.py <pkg> <test regex> [race] [tier] [counters] [tags=cNN] — prints the child log"""
 import sys, os
 sys.path.insert(0, os.path.dirname(os.path.abspath(__file__)))
 import driver
@@ -7,7 +7,8 @@ from driver import Job
 pkg, rx = sys.argv[1], sys.argv[2]
 race = "race" in sys.argv[3:]
 tier = "thorough" if "thorough" in sys.argv[3:] else "quick"
-spec = {"level": "exploration", "jobs": [Job("adhoc", pkg, rx, race=race, timeout=(3000, 6000))]}
+tags = ([a[5:] for a in sys.argv[3:] if a.startswith("tags=")] or [None])[0]  # e.g. tags=c09
+spec = {"level": "exploration", "jobs": [Job("adhoc", pkg, rx, race=race, timeout=(3000, 6000), extra_tags=tags)]}
 os.environ["VERIF_SCRATCH"] = "/var/tmp/verif-adhoc-%d" % os.getpid()
 rc = driver.run_check("ADHOC", spec, tier, int(os.environ.get("VERIF_SEED", "1")), keep=True)
 lf = os.environ["VERIF_SCRATCH"] + "/out/log-adhoc-0.txt"
